@@ -84,6 +84,19 @@ class _Simplify(ast.NodeTransformer):
             return node.value.elts[node.slice.value]
         return node
 
+    def visit_Call(self, node):
+        # ELEM(<comprehension E for x in XS>) -> E with x := ELEM(XS)   (iterating a generator / list comprehension)
+        self.generic_visit(node)
+        if isinstance(node.func, ast.Name) and node.func.id == "ELEM" and len(node.args) == 1 \
+                and isinstance(node.args[0], (ast.GeneratorExp, ast.ListComp)) and len(node.args[0].generators) == 1 \
+                and not node.args[0].generators[0].ifs:
+            from .layout import _subst_target
+            gen = node.args[0].generators[0]
+            r = _subst_target(node.args[0].elt, gen.target, gen.iter)
+            if r is not None:
+                return r
+        return node
+
 
 def simplify(expr):
     return _Simplify().visit(expr)
